@@ -355,7 +355,7 @@ func cmdReplayStorage(args []string) error {
 								switch {
 								case pv != "":
 									bad(store, "panic in RetrieveRule: "+pv, nil, nil)
-								case rerr != nil || r == nil:
+								case rerr != nil || isNilRule(r):
 									bad(store, fmt.Sprintf("RetrieveRule of scanned rule %d (pass %d)", n+1, pass), g.text[:min(40, len(g.text))], fmt.Sprint(rerr))
 								case kindOfRule(r, nil) != g.kind || r.Text() != g.text || r.GetFilterListID() != g.id:
 									bad(store, fmt.Sprintf("RetrieveRule of scanned rule %d (pass %d)", n+1, pass), fmt.Sprintf("%s %.40q id=%d", g.kind, g.text, g.id),
@@ -401,16 +401,21 @@ func cmdReplayStorage(args []string) error {
 							if err != nil {
 								return err
 							}
-							st3, cleanup3, err := makeStorage(rl2, variant == "denoised", dir)
+							vfile := (ci+len(variant))%2 == 0 // alternate the backing store; compare with the original on the same store
+							st3, cleanup3, err := makeStorage(rl2, vfile, dir)
 							if err != nil {
 								return err
+							}
+							vi := 0
+							if vfile {
+								vi = 1
 							}
 							sc3, pv := scanStorage(st3)
 							if pv != "" {
 								bad(variant, "panic while scanning: "+pv, nil, nil)
 							}
 							a, b := []string{}, []string{}
-							for _, g := range perStore[0] {
+							for _, g := range perStore[vi] {
 								a = append(a, fmt.Sprintf("%s|%s|%d", g.kind, g.text, g.id))
 							}
 							for _, g := range sc3 {
@@ -420,8 +425,8 @@ func cmdReplayStorage(args []string) error {
 								bad(variant, "scanned rules change", len(a), len(b))
 							}
 							ans3, pv := engineAnswers(st3, rls)
-							if pv != "" || ans3 != perStoreAns[0] {
-								bad(variant, "engine answers change "+pv, perStoreAns[0], ans3)
+							if pv != "" || ans3 != perStoreAns[vi] {
+								bad(variant, "engine answers change "+pv, perStoreAns[vi], ans3)
 							}
 							cleanup3()
 						}
